@@ -472,3 +472,47 @@ class PickleRoundTrip(Contract):
         p.prove(z3.BoolVal("xp" in new.f and not isinstance(new.f["xp"], (NoneV, Str))), f"{q}:C16:the array namespace is restored from x {tag}")
         for k in snap:
             p.prove(z3.BoolVal(g["orig"].f.get(k) is snap[k]), f"{q}:C16:frame: pickling leaves attribute {k} of the source untouched {tag}")
+
+
+class ComputeWeights(ComputeWeightsModel):
+    """z3 half of C02 for compute_weights (the formulas themselves are the Lean theorems over the generated definitions): every derived quantity is
+    recomputed from the *current* log-densities on every call - nothing a previous call (or the constructor) left on the object is kept"""
+    properties = ("C02",)
+    doc = ("after the call log_w, weights, log_evidence, evidence and the ESS are functions of the current log_likelihood, log_prior, log_q only, "
+           "whatever the object held before (a second call after the log-densities were changed, or a constructor-supplied log_evidence)")
+
+    def must_return(self, shape):
+        return True
+
+    def setup(self, I, shape):
+        s = mk_any_samples(I, "Samples", "s", SUBSETS[-1])
+        I.path.assume(s.f["x"].n >= 2)
+        # whatever an earlier call left behind
+        s.f["log_evidence"] = R(z3.Real("stale_log_evidence")) if I.path.choose(2, "stale-or-none") == 0 else NONE
+        s.f["log_evidence_error"] = R(z3.Real("stale_log_evidence_error"))
+        for k in ("evidence", "evidence_error", "effective_sample_size"):
+            s.f[k] = R(z3.Real(f"stale_{k}"))
+        n = s.f["x"].n
+        s.f["log_w"] = base_arr("stale_log_w", "real", n)
+        s.f["weights"] = base_arr("stale_weights", "real", n)
+        return Pre(s, [], ghost={"s": s})
+
+    def post(self, I, pre, r):
+        p, s = I.path, pre.ghost["s"]
+        q = self.qual
+        env = {"ll": s.f["log_likelihood"], "lp": s.f["log_prior"], "lq": s.f["log_q"], "xp": s.f["xp"], "n": IV(s.f["x"].n)}
+        want_lw = I.eval_expr("ll + lp - lq", "utils", env)
+        p.prove(arr_eq_goal(s.f.get("log_w"), want_lw), f"{q}:C02:log_w is recomputed from the current log-densities")
+        env["lw"] = want_lw
+        want_lz = I.eval_expr("logsumexp(lw) - math.log(n)", "samples", env)
+        got = s.f.get("log_evidence")
+        p.prove(to_real(got) == to_real(want_lz) if isinstance(got, Z) else z3.BoolVal(False),
+                f"{q}:C02:log_evidence is recomputed as LSE(log_w) - log n, whatever value the object held before")
+        want_w = I.eval_expr("xp.exp(lw)", "utils", env)
+        p.prove(arr_eq_goal(s.f.get("weights"), want_w), f"{q}:C02:weights are recomputed as exp(log_w)")
+        ev = s.f.get("evidence")
+        p.prove(to_real(ev) == to_real(I.eval_expr("xp.exp(lz)", "utils", dict(env, lz=want_lz))) if isinstance(ev, Z) else z3.BoolVal(False),
+                f"{q}:C02:evidence is exp(log_evidence) of this call")
+        want_ess = I.eval_expr("xp.exp(logsumexp(a) * 2 - logsumexp(a * 2))", "utils", dict(env, a=I.eval_expr("lw - xp.max(lw)", "utils", env)))
+        ess = s.f.get("effective_sample_size")
+        p.prove(to_real(ess) == to_real(want_ess) if isinstance(ess, Z) else z3.BoolVal(False), f"{q}:C02:the ESS is recomputed from the current log_w")
